@@ -20,6 +20,13 @@ Note(tag) == TLCSet(4, TLCGet(4) \cup {<<tr, tag>>})
 Started(e) == "sgate" \in DOMAIN e
 Stopped(e) == "passed" \in DOMAIN e
 WOf(e) == IF "w" \in DOMAIN e THEN e.w ELSE "w1"
+\* the wallet handlers: the answer is the handler's own decision on what it saw (locked, mining) and is part of the trace;
+\* the lock itself is followed as observed
+WalletStep(e) ==
+  LET h == IF e.call = "Lock" THEN HLock(Mn, Lk) ELSE HUnlock(Lk, e.good) IN
+  /\ K' = K /\ Mn' = e.miner /\ Lk' = e.locked
+  /\ (IF e.res = h.res /\ e.locked = h.l THEN TRUE
+      ELSE Note("wallet-" \o e.call \o "-" \o e.res \o "-" \o (IF e.locked THEN "locked" ELSE "unlocked") \o "-unlike-ApiControl"))
 ApiStep(e) ==
   LET w == WOf(e)
       k0 == IF Started(e) THEN StartK(K) ELSE IF Stopped(e) THEN StopK(K) ELSE K
@@ -39,14 +46,15 @@ ApiStep(e) ==
      \* F-C09a through the handlers: the Stop handlers leave standing requests in the channel
      \/ /\ e.call \in {"StopAll", "StopOne"} /\ h.k.chan # K.chan
         /\ K' = KeepsChan(K, h.k) /\ Flag("C09-withdraw-keeps-channel-request")
-  /\ Mn' = e.miner
+  /\ Mn' = e.miner /\ Lk' = e.locked
+  /\ (IF e.locked = Lk THEN TRUE ELSE Note("wallet-lock-changed-by-" \o e.call))
   /\ (IF e.miner = mexp THEN TRUE ELSE Note("miner-" \o (IF e.miner THEN "started" ELSE "stopped") \o "-after-" \o e.call \o "-unlike-ApiControl"))
 AProj(e, k, m) ==
   /\ "apierr" \notin DOMAIN e
   /\ DOMAIN e.apist = KnownSet(k) /\ \A w \in KnownSet(k) : e.apist[w] = k.st[w]      \* C09: the API reports the same states
-AStep(e) == IF e.a = "Api" THEN ApiStep(e) ELSE Step(e) /\ UNCHANGED Mn
+AStep(e) == IF e.a = "Api" THEN (IF e.call \in {"Lock", "Unlock"} THEN WalletStep(e) ELSE ApiStep(e)) ELSE Step(e) /\ UNCHANGED <<Mn, Lk>>
 
-ATInit == TInit /\ Mn = FALSE
+ATInit == TInit /\ Mn = FALSE /\ Lk = TRUE
 ATNext == /\ l <= Len(Traces[tr].ev)
           /\ ~Wedged(Traces[tr].ev[l])
           /\ AStep(Traces[tr].ev[l]) /\ ProjOK(Traces[tr].ev[l], K') /\ AProj(Traces[tr].ev[l], K', Mn')
